@@ -247,6 +247,11 @@ def run(R):
         out = R.path("run", "%s-probes.ndjson" % cn)
         e = dict(SAN_ENV); e.update(env)
         R.run([exes[variant], str(R.seed), "probes", out], env=e, timeout=600)
+        out2 = out + ".sys"                                   # the /dev/urandom fallback needs a fresh process (filter before sodium_init)
+        R.run([exes[variant], str(R.seed), "sysrandom_probe", out2], env=e, timeout=900, ok_codes=(0, 70, 71, 72))
+        open(out, "a").write(open(out2).read())
+        R.run([exes[variant], str(R.seed), "getrandom_probe", out2], env=e, timeout=900, ok_codes=(0, 70, 71, 72))   # the default getrandom(2) path, 256-byte chunks
+        open(out, "a").write(open(out2).read())
         jobs.append(("%s/probes" % cn, out, none))
     total, bad = judge(R, jobs)
     for labels, b in bad[:8]:
